@@ -110,7 +110,7 @@ pub fn c05_def() -> PropDef {
 pub fn c15_def() -> PropDef {
 	shuttle_def(
 		"C15",
-		"generated client scripts (1-3 clients; transactions from empty to 1 MiB values, bursts whose queued bytes exceed the 16 MiB commit-queue limit; always_flush on/off; optional index growth) against the four REAL worker loops with the queue-full throttles active, x generated moment of shutdown, x seeded shuttle schedules (random + PCT). Oracle: no execution ends in a deadlock (all threads blocked - reported by shuttle); every commit call returns; after the clients finish the main thread only polls the pipeline counters (yield) and the queue must become empty - and with always_flush the logged-but-unapplied byte count must reach 0 - within a bounded number of scheduler steps without any further call; shutdown + joining the four workers + drop terminate; reopen shows every committed transaction. Non-trivial = an execution in which some commit was throttled or some worker had to be woken (queue or log-queue non-empty when sampled); evaluations = schedule executions",
+		"generated client scripts (1-3 clients; transactions from empty to 1 MiB values, bursts whose queued bytes exceed the 16 MiB commit-queue limit; transactions beyond the 128 MiB log-queue limit; sync_data=false with 30-70 transactions per client so that more than the 16 kept log files are applied; always_flush on/off; optional index growth) against the four REAL worker loops with the queue-full throttles active, x generated moment of shutdown, x seeded shuttle schedules (random + PCT). Oracle: no execution ends in a deadlock (all threads blocked - reported by shuttle); every commit call returns; after the clients finish the main thread only polls the pipeline counters (yield) and the queue must become empty - and with always_flush the logged-but-unapplied byte count must reach 0 - within a bounded number of observer steps without any further call (1M under the uniformly random scheduler, 3M under PCT where exhausting shuttle's own step limit first is counted as an unfair schedule and skipped); shutdown + joining the four workers + drop terminate; reopen shows every committed transaction. Non-trivial = an execution in which some commit was throttled or some worker had to be woken (queue or log-queue non-empty when sampled); evaluations = schedule executions",
 		&[
 			"bounded liveness: 'eventually' is replaced by 'within L scheduler steps while only the observer spins'; sound as a violation criterion, cannot prove termination for unexplored schedules",
 			"production configuration is always_flush=false; always_flush=true executions are labelled separately",
